@@ -35,6 +35,15 @@ def scenarios(tier):
     for positive in ('up', 'down', 'absent'):
         for layout in ('tkyx', 'ktyx', 'tyxk', 'kyx', 'tkn', 'ytkx'):
             out.append({'name': f'ocean_floor[positive={positive},temp{LAYOUTS[layout]}]', 'fn': 'scn_floor', 'kwargs': {'positive': positive, 'layout': layout}})
+    if tier == 'thorough':
+        for positive in ('DOWN', 'Up', 'Down'):
+            for layout in ('ktyx', 'tyxk', 'kyx', 'ytkx'):
+                out.append({'name': f'ocean_floor[positive={positive},temp{LAYOUTS[layout]}]', 'fn': 'scn_floor', 'kwargs': {'positive': positive, 'layout': layout}})
+        for positive in ('down', 'absent'):
+            out.append({'name': f'ocean_floor[two depth coordinates on one dimension, positive={positive}]', 'fn': 'scn_floor',
+                        'kwargs': {'positive': positive, 'layout': 'tkyx', 'second': 'shared'}})
+            out.append({'name': f'ocean_floor[dimension coordinate k(k), positive={positive}, temp(k, t, y, x)]', 'fn': 'scn_floor',
+                        'kwargs': {'positive': positive, 'layout': 'ktyx', 'dimcoord': True}})
     out.append({'name': "ocean_floor[positive='DOWN' (CF: case-insensitive)]", 'fn': 'scn_floor', 'kwargs': {'positive': 'DOWN', 'layout': 'tkyx'}})
     out.append({'name': 'ocean_floor[no non-spatial variables given: records are columns of their own]', 'fn': 'scn_floor', 'kwargs': {'positive': 'up', 'layout': 'tkyx', 'nonspatial': False}})
     out.append({'name': 'ocean_floor[dimension coordinate k(k)]', 'fn': 'scn_floor', 'kwargs': {'positive': 'down', 'layout': 'tkyx', 'dimcoord': True}})
